@@ -97,6 +97,11 @@ Definition check_inline (c : list (Z * mcell) * list Z * res (list (Z * mcell)))
   let '(dic, ti, expected) := c in
   res_eqb dic_eqb (inline_cells 60 ti dic) expected.
 
+(* (g') inline_cells with the score: nothing captured *)
+Definition check_inline_score (c : list (Z * mcell) * float * res (list (Z * mcell))) : bool :=
+  let '(dic, score, expected) := c in
+  res_eqb dic_eqb (inline_cells_score FS 60 score dic) expected.
+
 (* (h) pot_fill on every level-0 cell with a FILL, in dict order *)
 Definition check_fill (c : bool * bool * list (Z * mcell) * Z * res (list (Z * mcell) * Z)) : bool :=
   let '(fd, fg, dic, counter, expected) := c in
